@@ -491,7 +491,7 @@ class Plan(object):
         self.body_parts = r() < 0.5         # <soap:body parts="..."> naming ALL parts of the message
         perm = list(range(nns))
         rng.shuffle(perm)
-        mode = rng.choice(["all", "needed", "cycle", "random"])
+        mode = rng.choice(["all", "needed", "needed", "cycle", "random", "xsd-minimal"])
         inter = r() < 0.5
         if variant == 0:                    # every interface is rendered with the namespaces reversed ...
             self.ns_order, self.imports, self.interleave, self.body_parts = list(reversed(range(nns))), "cycle", False, True
@@ -833,6 +833,8 @@ def imports_of(iface, plan, decls, ns):
     nns = len(iface.S.namespaces)
     aux = nns - 1
     need = needed_namespaces(decls[ns], decls) - {ns}
+    if plan.imports == "xsd-minimal":        # exactly what XSD requires: not the namespaces of ref targets' types
+        return sorted(needed_namespaces(decls[ns], None) - {ns})
     if plan.imports == "all":
         return [i for i in range(nns) if i != ns]
     if plan.imports == "needed":
@@ -1709,6 +1711,10 @@ PROPOSED_E = "C07:optional-element-with-anonymous-type-makes-children-optional"
 # a direct member of the reply that is an EMPTY element of a nillable complex-typed element decodes to ''
 # when the type is named and to None when it is written inline
 KNOWN_F = "C07:empty-nillable-reply-member-named-vs-anonymous-type"
+# <element ref=...> to a typed global element of another namespace: the copied type= is looked up in the
+# REFERENCING block's Schema, which under an xs:import cycle (and unless that block is written first) has not
+# received the type's namespace
+KNOWN_G = "C07:ref-target-type-looked-up-in-referencing-schema"
 
 
 def only_empty_vs_none(a, b, where=None, out=None):
@@ -1750,6 +1756,10 @@ def toggles(plan, iface):
     if plan.efd_flip:
         out.append((KNOWN_C, "blocks of one namespace with different elementFormDefault",
                     lambda q: setattr(q, "efd_flip", {})))
+    if plan.imports == "xsd-minimal":
+        # adds nothing but the imports of the namespaces of referenced global elements' types
+        out.append((KNOWN_G, "a block that imports only what XSD requires: not the namespace of the type of a "
+                    "global element it references", lambda q: setattr(q, "imports", "needed")))
     if plan.decl_on_use:
         out.append((PROPOSED_D, "a prefix declared on the wsdl:port / wsdl:input element that uses it",
                     lambda q: setattr(q, "decl_on_use", False)))
@@ -1811,7 +1821,7 @@ def attribute(iface, plan, observe, expected):
             got = ("harness", repr(e))
         return got == expected
     cands = toggles(plan, iface)
-    known = [c for c in cands if c[0] in (KNOWN_A, KNOWN_B, KNOWN_C, PROPOSED_D, PROPOSED_E)]
+    known = [c for c in cands if c[0] in (KNOWN_A, KNOWN_B, KNOWN_C, PROPOSED_D, PROPOSED_E, KNOWN_G)]
     # known classes (alone, then together) before any generic feature: switching a generic
     # feature off (e.g. "one block per namespace") also removes the known quirks
     for group in (known, cands):
@@ -1909,6 +1919,23 @@ DIRECTED_REPLY = (b'<env:Envelope xmlns:env="http://schemas.xmlsoap.org/soap/env
                   b'<R xmlns="my-namespace"><e/><e><a>x</a></e></R></env:Body></env:Envelope>')
 
 
+CYCLE_A = """<xsd:schema targetNamespace="urn:a" elementFormDefault="qualified"><xsd:import namespace="urn:b"/>
+  <xsd:element name="f"><xsd:complexType><xsd:sequence><xsd:element ref="b:item"/></xsd:sequence></xsd:complexType></xsd:element></xsd:schema>"""
+CYCLE_B = """<xsd:schema targetNamespace="urn:b" elementFormDefault="qualified"><xsd:import namespace="urn:c"/>
+  <xsd:element name="item" type="c:T"/></xsd:schema>"""
+CYCLE_C = """<xsd:schema targetNamespace="urn:c" elementFormDefault="qualified"><xsd:import namespace="urn:a"/>
+  <xsd:complexType name="T"><xsd:sequence><xsd:element name="x" type="xsd:string"/></xsd:sequence></xsd:complexType></xsd:schema>"""
+CYCLE_WSDL = """<wsdl:definitions targetNamespace="urn:a" xmlns:a="urn:a" xmlns:b="urn:b" xmlns:c="urn:c"
+ xmlns:soap="http://schemas.xmlsoap.org/wsdl/soap/" xmlns:wsdl="http://schemas.xmlsoap.org/wsdl/" xmlns:xsd="http://www.w3.org/2001/XMLSchema">
+ <wsdl:types>%s</wsdl:types>
+ <wsdl:message name="fIn"><wsdl:part name="parameters" element="a:f"/></wsdl:message><wsdl:message name="fOut"/>
+ <wsdl:portType name="pt"><wsdl:operation name="f"><wsdl:input message="a:fIn"/><wsdl:output message="a:fOut"/></wsdl:operation></wsdl:portType>
+ <wsdl:binding name="bd" type="a:pt"><soap:binding style="document" transport="http://schemas.xmlsoap.org/soap/http"/>
+  <wsdl:operation name="f"><soap:operation soapAction="f"/><wsdl:input><soap:body use="literal"/></wsdl:input><wsdl:output><soap:body use="literal"/></wsdl:output></wsdl:operation></wsdl:binding>
+ <wsdl:service name="s"><wsdl:port name="p" binding="a:bd"><soap:address location="http://unused.invalid/"/></wsdl:port></wsdl:service>
+</wsdl:definitions>"""
+
+
 def run_directed(ck):
     """One fixed instance per run of the two listed classes that the random
     renderings only hit now and then, so that they are re-observed on every seed."""
@@ -1946,6 +1973,32 @@ def run_directed(ck):
             ck.failing_input("C07:directed-reply-named-vs-anonymous",
                              "a reply decodes differently with a type named / written inline, and not just '' "
                              "against None on the empty member", payload)
+    # xs:import cycle a -> b -> c -> a, block A (which references b:item, typed c:T, and imports only urn:b)
+    # written first / written last
+    first = (CYCLE_WSDL % (CYCLE_A + CYCLE_B + CYCLE_C)).encode("utf-8")
+    last = (CYCLE_WSDL % (CYCLE_B + CYCLE_C + CYCLE_A)).encode("utf-8")
+    assert rendering_selfcheck(first) is None and rendering_selfcheck(last) is None
+    outcome = []
+    for w in (first, last):
+        c, err = load_client(w)
+        if c is None:
+            outcome.append(("load-error", err))
+        else:
+            r = request(c, "p", "f", (), {"item": {"x": "v"}})
+            outcome.append(("ok", [n.canon() for n in r[1]]) if r[0] == "ok" else r[:2])
+    ck.seen(("directed", "import-cycle"))
+    ck.count("directed-instances")
+    if outcome[0] != outcome[1]:
+        payload = {"part": "directed", "wsdl": last.decode("utf-8"), "baseline_wsdl": first.decode("utf-8"),
+                   "referencing_block_first": repr(outcome[0]), "referencing_block_last": repr(outcome[1])}
+        if outcome[0][0] == "ok" and outcome[1][0] == "load-error" and "TypeNotFound" in outcome[1][1] \
+                and "'T'" not in outcome[1][1] and "(T, urn:c" in outcome[1][1]:
+            ck.failing_input(KNOWN_G, "blocks B, C, A with the import cycle a->b->c->a: %s; with A written first "
+                             "the same interface loads" % outcome[1][1], payload)
+        else:
+            ck.failing_input("C07:directed-import-cycle-block-order",
+                             "the import-cycle instance behaves differently with the referencing block first / last, "
+                             "and not as TypeNotFound for the referenced element's type", payload)
     # the prefix of binding= declared on the wsdl:port element itself
     plain = U.doc_wsdl(DIRECTED_NAMED)
     moved = plain.replace(b'<wsdl:port name="dummy" binding="tns:dummy">',
